@@ -74,12 +74,26 @@ func judge(w *world, rq *request, c *reqCtx, code int, base backend.BasePayloadR
 	}
 
 	// what must happen, from the request and from what storage did for THIS delivery
-	unknown := !rq.rec.known || c.failKeys == 2
+	// (what storage answered to THIS delivery: a device may be provisioned and
+	// a label re-keyed while other requests are in flight)
+	// (a request that was answered without asking storage counts as "unknown"
+	// only if the device was not provisioned yet when it was sent)
+	unknown := c.notFound || (!c.gotKeys && !c.firedKeys && !rq.knownAtSend)
 	storageErr := c.firedKeys || c.firedKEK || c.firedLabel
 	nsLabel := sender
-	nsKEK := w.keks[nsLabel]
+	nsKEK := kekGet(nsLabel)
+	if c.nsServed {
+		nsKEK = c.nsKEK
+	}
 	asLabel := rq.rec.asLabel
-	asKEK := w.keks[asLabel]
+	asKEK := kekGet(asLabel)
+	if c.asServed {
+		asKEK = c.asKEK
+	}
+	// a storage back-end that took seconds: whether the join-server gives up
+	// on such a request (a time-out policy) is not in the statement; it may
+	// answer non-Success, never a wrong Success
+	verySlow := c.slept >= 1e9
 	badKEK := (kekUsable(nsLabel, nsKEK) && !validKEKLen(nsKEK)) || (kekUsable(asLabel, asKEK) && !validKEKLen(asKEK))
 	rxBad := rq.rxDelay < 0 || rq.rxDelay > 15
 
@@ -110,13 +124,15 @@ func judge(w *world, rq *request, c *reqCtx, code int, base backend.BasePayloadR
 	if rc != backend.Success {
 		_ = hasKeys // (whether an error answer may carry a PHYPayload is not in the statement)
 		switch {
+		case storageErr:
+			// the narrow relaxation: a storage callback failed for this delivery
+			// (also when the device is unknown as well: a handler that issues its
+			// look-ups side by side may meet either first), it may fail with any
+			// non-Success code
 		case unknown && c.failKeys != 1:
 			if rc != backend.UnknownDevEUI {
 				simrt.Report("j2.unknown-deveui:"+kindName, fmt.Sprintf("request for an unknown DevEUI answered %s (%s)", rc, base.Result.Description))
 			}
-		case storageErr:
-			// the narrow relaxation: storage failed for this request, it may
-			// fail with any non-Success code
 		case rq.badMIC && rq.kind == 0:
 			// the device is known and its keys were served: a wrong MIC is
 			// MICFailed whatever else is wrong with the request
@@ -129,6 +145,8 @@ func judge(w *world, rq *request, c *reqCtx, code int, base backend.BasePayloadR
 		case rq.badMIC:
 			// a rejoin-request with a wrong MIC: the statement promises Success
 			// only for a correct MIC; whether the join-server checks it is open
+		case verySlow:
+			simrt.Count(cSlowFail)
 		default:
 			sig := "j1.rejected:" + kindName
 			if live {
